@@ -2,6 +2,7 @@ package checks
 
 import (
 	"fmt"
+	"sort"
 	"strings"
 	"sync"
 	"sync/atomic"
@@ -75,9 +76,25 @@ func runFOp(w *world.World, t *mast.Mast, op fOp, aux *mast.Mast) (world.Res, st
 			obs = fmt.Sprint(ks)
 			return err
 		case "DiffLinks":
-			n := 0
-			err := t.DiffLinks(ctx, aux, func(r bool, l interface{}) (bool, error) { n++; return true, nil })
-			obs = fmt.Sprint(n)
+			var evs []string
+			err := t.DiffLinks(ctx, aux, func(r bool, l interface{}) (bool, error) {
+				if s, ok := l.(string); ok {
+					evs = append(evs, fmt.Sprintf("%v:%s", r, s))
+				} else {
+					evs = append(evs, fmt.Sprintf("%v:in-memory", r))
+				}
+				return true, nil
+			})
+			// the set of reported links: a name reported a second time after a transient fault inside the
+			// already-notified memo (which swallows it by design) changes nothing for a replica and is not judged
+			sort.Strings(evs)
+			uniq := evs[:0]
+			for i, e := range evs {
+				if i == 0 || e != evs[i-1] {
+					uniq = append(uniq, e)
+				}
+			}
+			obs = fmt.Sprint(uniq)
 			return err
 		case "Clone":
 			c, err := t.Clone(ctx)
@@ -253,7 +270,19 @@ func layerClass(cfg *world.Config, k int) string {
 	return "layer0-key"
 }
 
+// swallowMode: the fault enumeration run on behalf of another property. Only calls that returned nil although
+// one of their environment calls failed are judged: what a call that reports success did must be what it
+// does in the fault-free execution (its answer and the state it leaves). ops selects the operations.
+type swallowMode struct {
+	check string
+	ops   map[string]bool
+}
+
 func c12State(run *report.Run, cfg *world.Config, hist []world.Op, acc *pairAcc, st *c12Stats, pairs bool) {
+	c12StateMode(run, cfg, hist, acc, st, pairs, nil)
+}
+
+func c12StateMode(run *report.Run, cfg *world.Config, hist []world.Op, acc *pairAcc, st *c12Stats, pairs bool, sm *swallowMode) {
 	build := func() (*world.World, *mast.Mast, *mast.Mast, bool) {
 		w, err := explore.Replay(cfg, hist, true)
 		if err != nil {
@@ -268,6 +297,9 @@ func c12State(run *report.Run, cfg *world.Config, hist []world.Op, acc *pairAcc,
 		return w, t, aux, true
 	}
 	for _, op := range fOps(cfg) {
+		if sm != nil && !sm.ops[op.name] {
+			continue
+		}
 		// 0 deviations: the reference execution
 		w, t, aux, ok := build()
 		if !ok {
@@ -330,7 +362,7 @@ func c12State(run *report.Run, cfg *world.Config, hist []world.Op, acc *pairAcc,
 			case "marshal":
 				w.Msh.FailAt = set
 			}
-			res, _ := runFOp(w, t, op, aux)
+			res, obsF := runFOp(w, t, op, aux)
 			atomic.AddInt64(&st.evals, 1)
 			w.Store.ClearFaults()
 			w.Cmp.Reset()
@@ -343,9 +375,20 @@ func c12State(run *report.Run, cfg *world.Config, hist []world.Op, acc *pairAcc,
 				atomic.AddInt64(&st.swallowed, 1)
 				// diagnostic only (the property speaks of calls that return an error): did the
 				// swallowed fault change what the operation did?
-				if c1, s1, h1 := treeView(w, t); !c1.Equal(postC) || s1 != postSize || h1 != postH {
+				c1, s1, h1 := treeView(w, t)
+				differs := !c1.Equal(postC) || s1 != postSize || h1 != postH || obsF != obs0 || (res0.Err != nil) != (res.Err != nil)
+				if differs {
 					atomic.AddInt64(&st.swallowedDiffer, 1)
 				}
+				if differs && sm != nil {
+					acc.add(cfg, sm.check, []explore.Finding{{Sig: fmt.Sprintf("%s|%s|reported-success-under-a-failing-%s-but-the-result-differs", sm.check, op.name, f.kind),
+						What:   fmt.Sprintf("%s returned nil although one of its %s calls failed, and its answer or the state it leaves is not that of the fault-free execution", op.name, f.kind),
+						Detail: fmt.Sprintf("fault-free: %q -> %v size=%d height=%d; with %s #%d failing: %q -> %v size=%d height=%d", obs0, postC, postSize, postH, f.kind, f.i, obsF, c1, s1, h1)}},
+						append(cfg.DescribeHist(hist), fmt.Sprintf("then %s(%v) with %s #%d failing", op.name, cfg.Key(op.k), f.kind, f.i)))
+				}
+				continue
+			}
+			if sm != nil {
 				continue
 			}
 			atomic.AddInt64(&st.errorsReturned, 1)
@@ -374,7 +417,7 @@ func c12State(run *report.Run, cfg *world.Config, hist []world.Op, acc *pairAcc,
 			// retry after the fault has cleared; a cursor navigation is retried on the same cursor
 			var res2 world.Res
 			var obs2 string
-			if cr, ok := lastCursorRun.Load(w); ok && (strings.HasPrefix(op.name, "Cursor") && cr.(*cursorRun).next > 0 || op.name == "DiffCursor") {
+			if cr, ok := lastCursorRun.Load(w); ok && (strings.HasPrefix(op.name, "Cursor") && cr.(*cursorRun).cur != nil || op.name == "DiffCursor") {
 				c := cr.(*cursorRun)
 				res2 = guardRes(c.resume)
 				if res2.Err == nil && res2.Panic == nil {
@@ -473,4 +516,27 @@ func C12(run *report.Run) {
 	run.AddSample(map[string]interface{}{"pre_state": "every state of the single-tree closure (all mixes of persisted / loaded / dirty nodes)", "operation": "Insert/Delete of every key and value, Get, Iter, SeekIter, DiffIter, DiffLinks, Clone, Cursor Min/Max/Ceil/Forward^k/Backward^k",
 		"deviation": "the i-th Persist.Load (or KeyCompare, or Marshal) call of that operation returns an error, for every i (pairs i<j in the thorough tier)", "oracle": "if the call returned an error: contents/Size/Height unchanged and the retried call behaves like the fault-free execution"})
 	run.Rule = "engine F: pre-states from engine W's closure; per (state, operation) a 0-deviation reference execution counts environment calls, then one execution per call index with that answer replaced by an error; distinct_nontrivial = executions in which the operation actually returned an error"
+}
+
+// swallowedFaultPass runs the fault enumeration for the given operations on behalf of check: see swallowMode.
+func swallowedFaultPass(run *report.Run, check string, ops ...string) {
+	B, M := ref.FormatBinary, ref.FormatMarshaler
+	cc := func(c *world.Config) *world.Config { c.CustomCompare = true; c.Name += "/countingcompare"; return c }
+	cfgs := []*world.Config{world.UintCfg(2, urange(1, 5), 1, B, "none"), cc(world.UintCfg(2, urange(1, 4), 1, M, "none")), world.StructCfg(2, []uint8{0, 1, 0, 2}, B, "none"), ChainSeeded(B, 1)}
+	sm := &swallowMode{check: check, ops: map[string]bool{}}
+	for _, o := range ops {
+		sm.ops[o] = true
+	}
+	acc := &pairAcc{}
+	st := &c12Stats{}
+	for _, cfg := range cfgs {
+		hists := closureStatesBounded(run, check, cfg)
+		parallelFor(len(hists), func(i int) { c12StateMode(run, cfg, hists[i], acc, st, false, sm) })
+		run.Parts = append(run.Parts, map[string]interface{}{"part": "calls that report success under a failing Load / KeyCompare / Marshal call", "config": cfg.Name, "pre_states": len(hists), "operations": ops})
+	}
+	acc.flush(run)
+	run.Transitions += st.evals
+	run.Validated += st.evals
+	run.Extra["executions_with_one_failing_environment_call"] = st.evals
+	run.Extra["of_which_reported_success"] = st.swallowed
 }
